@@ -2,6 +2,7 @@ mod distinct;
 mod emit;
 mod env;
 mod fmts;
+mod history;
 mod hostile;
 mod lexu;
 mod model;
@@ -26,6 +27,12 @@ fn main() {
     if args[2] == "--replay" {
         let path = args.get(3).expect("replay file");
         std::process::exit(props::replay(id, path));
+    }
+    if args[2] == "--ops" {
+        // internal: outcome of one op of this property's call-history alphabet, in this fresh process
+        let k: usize = args.get(3).and_then(|x| x.parse().ok()).expect("op index");
+        report::install_quiet_panic_hook();
+        std::process::exit(history::serve(&props::history_ops(id), k));
     }
     if args[2] == "--probe" {
         // internal: run one journaled case again in this (expendable) process
